@@ -105,6 +105,67 @@ def h_stack(P, kinds, m):
     P.oblige("unwrap.innermost", pp.get_function_problem(stack) is inner)
 
 
+def h_delegation(P, kinds):
+    """Whatever the innermost problem is, the stack's comparison / bounds / direction ARE the innermost problem's: a custom Problem
+    whose worse_than is an arbitrary (uninterpreted) relation must be consulted exactly once per query and its answer returned."""
+    from pyhms.core import problem as pp
+
+    calls = []
+    answers = []
+
+    class Custom(pp.Problem):
+        def evaluate(self, genome, *a, **k):
+            return 0.0
+
+        def worse_than(self, a, b):
+            v = P.bool(P._n("inner_worse_than"))
+            calls.append((a, b))
+            answers.append(v)
+            return v
+
+        @property
+        def bounds(self):
+            return BOUNDS_OBJ
+
+        @property
+        def maximize(self):
+            return MAX
+
+    BOUNDS_OBJ = np.array([[0.0, 1.0]])
+    MAX = P.bool("maximize")
+    inner = Custom()
+    stack = inner
+    for kind in reversed(kinds):
+        stack = {"count": lambda s: pp.EvalCountingProblem(s), "cutoff": lambda s: pp.EvalCutoffProblem(s, 3),
+                 "precision": lambda s: pp.PrecisionCutoffProblem(s, 0.0, 0.5), "stats": lambda s: pp.StatsGatheringProblem(s)}[kind](stack)
+    a = P.float("a", nn=False)
+    b = P.float("b", nn=False)
+    got = stack.worse_than(a, b)
+    P.oblige("delegation.worse_than_is_innermost_answer", len(calls) == 1 and calls[0][0] is a and calls[0][1] is b and got is answers[0])
+    P.oblige("delegation.bounds_and_direction", stack.bounds is BOUNDS_OBJ and stack.maximize is MAX)
+
+
+def h_nan_order(P, wrappers):
+    """FunctionProblem's NaN rule (a NaN fitness is worse than any number) survives any number of wrappers."""
+    from pyhms.core import problem as pp
+
+    maximize = P.bool("maximize")
+    stack = inner = pp.FunctionProblem(lambda x: 0.0, np.array([[0.0, 1.0]]), maximize)
+    for _ in range(wrappers):
+        stack = pp.EvalCountingProblem(stack)
+    a = P.float("a", nn=False)
+    b = P.float("b", nn=False)
+    from symx.core import isnan as sisnan
+    P.assume(lnot(land(sisnan(a), sisnan(b))), "not both NaN (that case is a coin flip in the library)")
+    got = bool(stack.worse_than(a, b))
+    want = bool(inner.worse_than(a, b))
+    P.oblige("nan_order.same_as_innermost", got == want)
+    if bool(sisnan(a)):
+        P.oblige("nan_order.nan_is_worse_than_any_number", got is True)
+    if bool(sisnan(b)):
+        P.oblige("nan_order.number_is_not_worse_than_nan", got is False)
+
+
 _PURE = {}
 
 
@@ -143,6 +204,10 @@ def cases(tier):
         mm = m if s.count("precision") < 3 else m - 1  # three precision layers fork 3x per call: one call less keeps the case in budget
         cs.append(dict(name="stack." + "/".join(s), fn=h_stack, params=dict(kinds=list(s), m=mm), profile="real", oblig_timeout_s=120,
                        budget_s=2400, max_paths=400000, weight=len(s) + 3 * s.count("precision")))
+    for s in (["count"], ["cutoff", "stats"], ["precision", "count", "cutoff"], ["stats", "precision"]):
+        cs.append(dict(name="delegation." + "/".join(s), fn=h_delegation, params=dict(kinds=list(s)), profile="fp", budget_s=600))
+    for wr in (1, 3):
+        cs.append(dict(name=f"nan_order.w{wr}", fn=h_nan_order, params=dict(wrappers=wr), profile="fp", budget_s=600))
     # bit-precise float64 for the stacks without a precision layer: the objective may return +-inf, -0.0, ...
     for s in itertools.product(["count", "cutoff", "stats"], repeat=2):
         cs.append(dict(name="stack.fp." + "/".join(s), fn=h_stack, params=dict(kinds=list(s), m=3), profile="fp", oblig_timeout_s=120, budget_s=900, weight=2))
